@@ -266,6 +266,34 @@ def run_case(case, seed):
                     trans += O + 2
                     if bad:
                         V("exact-adjoint", name, "adjoint is not C-linear in its array argument on probe %s (err %.3g): imaginary part dropped or conjugated" % bad[0])
+        # mixed dtypes: the array handed to an adjoint and the array it is the adjoint FOR may differ in dtype (single-precision
+        # complex k-space with a double or integer-valued kernel, ...); the result is the exact adjoint in the common type
+        if O > 0 and not viol and dt == "cc":
+            fi = np.round(3 * np.real(ff) + 0.25).astype(np.int64)       # integer-valued filter, e.g. [1, -2, 1]
+            di = np.round(3 * np.real(dd) - 0.25).astype(np.int64)
+            Dmi = np.zeros((O, P), complex)
+            for pi in range(P):
+                Dmi[:, pi] = ref_conv(dense.basis(P, pi, [B, ci] + m), fi.reshape([co, ci] + n).astype(complex), m, n, mode, s, B, ci, co).ravel()
+            Fmi = np.zeros((O, Q), complex)
+            for qi in range(Q):
+                Fmi[:, qi] = ref_conv(di.reshape([B, ci] + m).astype(complex), dense.basis(Q, qi, [co, ci] + n), m, n, mode, s, B, ci, co).ravel()
+            yv = (dense.dense_vec(O, 4) * (1 + 0.75j))
+            for ydt, odt in ((np.complex64, np.float64), (np.complex64, np.int64), (np.float32, np.int64), (np.float64, np.complex64), (np.complex128, np.float32)):
+                yy = (yv if np.issubdtype(ydt, np.complexfloating) else np.real(yv)).astype(ydt).reshape(oshape)
+                rt = 2e-5 if np.dtype(ydt).itemsize <= 8 and ydt is not np.float64 or odt in (np.complex64, np.float32) else 1e-9
+                for name, call, refM in (("conv.convolve_data_adjoint", lambda: sp.convolve_data_adjoint(yy, fi.astype(odt), dshape, **kw), Dmi.conj().T),
+                                         ("conv.convolve_filter_adjoint", lambda: sp.convolve_filter_adjoint(yy, di.astype(odt), fshape, **kw), Fmi.conj().T)):
+                    try:
+                        got = np.asarray(call())
+                        trans += 1
+                    except Exception:
+                        continue      # a refusal of a dtype combination is loud
+                    want = refM @ yy.ravel().astype(complex)
+                    err = float(np.abs(got.ravel() - want).max()) / max(1.0, float(np.abs(want).max()))
+                    if not err <= rt:
+                        V("exact-adjoint", name, "output dtype %s with %s of dtype %s: result (dtype %s) differs from the exact adjoint by %.3g "
+                          "(imaginary part or fraction dropped?)" % (np.dtype(ydt).name, "filter" if "data" in name else "data", np.dtype(odt).name, got.dtype, err))
+                        break
     else:
         # no operator exists for this combination, so nothing can be its adjoint: the adjoint functions must refuse too
         # (probed with the output shape |m-n|+1 per axis that a per-axis valid rule would give, subsampled by the strides)
